@@ -137,6 +137,8 @@ def _build(ctx, i):
         # .always is the attribute; an explicit per-run always=... injected through .opts overrides it
         okw = {"opts": {"always": d["opt_always"]}} if d.get("opt_always") is not None else {}
         obj = RecDoDoer(doers=[ctx.objs[k] for k in d["kids"]], always=d["always"], tock=d["tock"], **okw)
+        if d.get("falsy"):
+            RecDoDoer.__bool__ = lambda self: False
         ctx.objs[i] = obj
         return obj
     script = d["script"]
@@ -188,6 +190,8 @@ def _build(ctx, i):
             def exit(self):
                 hook("exit")
         obj = PlainDoer(tock=0.0)
+        if d.get("falsy"):
+            PlainDoer.__len__ = lambda self: 0      # e.g. a doer that is also a (currently empty) container
     elif kind == "doergen":
         class GenDoer(doing.Doer):
             def enter(self, *, temp=None):
@@ -218,6 +222,8 @@ def _build(ctx, i):
             def exit(self):
                 hook("exit")
         obj = GenDoer(tock=0.0)
+        if d.get("falsy"):
+            GenDoer.__bool__ = lambda self: False
     else:
         def body(tymth=None, tock=0.0, *, temp=None, **opts):
             done = None
@@ -1133,3 +1139,15 @@ def gen_enter_effects(rng, n):
         p["defs"][str(c)]["script"][0]["es"].append(eff)
         out.append(p)
     return out
+
+
+def add_falsy(rng, progs, share=0.2):
+    """In a share of the programs one or two doer objects (Doer subclasses, DoDoers) are falsy -- a doer that is also
+    an empty container, or defines __bool__ -- which must not matter to any scheduler: the Coq case is unchanged."""
+    for p in progs:
+        if rng.random() >= share:
+            continue
+        cands = [d for d in p["defs"].values() if d["kind"] in ("doer", "doergen", "nest")]
+        for d in rng.sample(cands, min(len(cands), rng.choice([1, 1, 2]))):
+            d["falsy"] = True
+    return progs
